@@ -63,6 +63,8 @@ def actor(rng, depth=1, hostile=0.0):
         d["name"] = gen.hostile_text(rng, 8) if rng.random() < hostile else rng.choice(["Alice", "", "Bob " * 20, 5, None])
     if rng.random() < 0.8:
         d["preferredUsername"] = rng.choice(["alice", "b\x1bob", "", 5])
+    if rng.random() < 0.5:
+        d["id"] = rng.choice(["https://h.example/users/alice", "https://xn--h-example.invalid:8443/u?x=1", "https://h\x9b.example/u", "%zz", "relative/id", 5])
     if rng.random() < 0.6:
         doc, mt = markup(rng, hostile)
         d["summary"] = doc
